@@ -26,6 +26,7 @@ const basePrelude = `(declare-sort Str 0)
 (declare-datatypes ((Slc 0)) (((mk_slc (slc_arr Int) (slc_off Int) (slc_len Int) (slc_cap Int)))))
 (declare-datatypes ((Ifc 0)) (((mk_ifc (ifc_tag Int) (ifc_pay Int)))))
 (declare-fun slen (Str) Int)
+(declare-fun isPtrTag (Int) Bool)
 (declare-fun ix (Int Int) Int)
 (declare-fun blen (Bytes) Int)
 (declare-fun bnil () Bytes)
@@ -102,8 +103,67 @@ type unsupported struct{ msg string }
 
 func unsupp(format string, a ...any) { panic(unsupported{fmt.Sprintf(format, a...)}) }
 
+var pseudoTypes = map[string]types.Type{}
+
+// pseudoType wraps a raw SMT sort as a Go type so that specification values of
+// that sort can flow through the typed evaluator.
+func pseudoType(sort string) types.Type {
+	sort = strings.TrimSpace(sort)
+	switch sort {
+	case "Int":
+		return types.Typ[types.Int]
+	case "Bool":
+		return types.Typ[types.Bool]
+	case "Str":
+		return types.Typ[types.String]
+	case "Bytes":
+		return types.NewSlice(types.Typ[types.Byte])
+	case "Ifc":
+		return types.NewInterfaceType(nil, nil)
+	}
+	if t, ok := pseudoTypes[sort]; ok {
+		return t
+	}
+	t := types.NewNamed(types.NewTypeName(0, nil, "smt:"+sort, nil), types.NewStruct(nil, nil), nil)
+	pseudoTypes[sort] = t
+	return t
+}
+
+func pseudoSort(t types.Type) (string, bool) {
+	if n, ok := types.Unalias(t).(*types.Named); ok && strings.HasPrefix(n.Obj().Name(), "smt:") {
+		return strings.TrimPrefix(n.Obj().Name(), "smt:"), true
+	}
+	return "", false
+}
+
+// arraySorts splits "(Array K V)" into K and V.
+func arraySorts(s string) (string, string, bool) {
+	s = strings.TrimSpace(s)
+	if !strings.HasPrefix(s, "(Array ") || !strings.HasSuffix(s, ")") {
+		return "", "", false
+	}
+	inner := strings.TrimSpace(s[len("(Array ") : len(s)-1])
+	depth := 0
+	for i := 0; i < len(inner); i++ {
+		switch inner[i] {
+		case '(':
+			depth++
+		case ')':
+			depth--
+		case ' ':
+			if depth == 0 {
+				return inner[:i], strings.TrimSpace(inner[i+1:]), true
+			}
+		}
+	}
+	return "", "", false
+}
+
 func (ty *Types) sortOf(t types.Type) Sort {
 	t = types.Unalias(t)
+	if ps, ok := pseudoSort(t); ok {
+		return Sort(ps)
+	}
 	if isBytesType(t) {
 		return SBytes
 	}
@@ -218,6 +278,9 @@ func (ty *Types) zero(t types.Type) Term {
 // rangeFact returns the typing invariant of a value of Go type t.
 func (ty *Types) rangeFact(v Term, t types.Type, alloc Term) Term {
 	t = types.Unalias(t)
+	if _, ok := pseudoSort(t); ok {
+		return "true"
+	}
 	if isBytesType(t) {
 		return "true"
 	}
@@ -242,7 +305,11 @@ func (ty *Types) rangeFact(v Term, t types.Type, alloc Term) Term {
 		return f
 	case *types.Interface:
 		tg, p := sx("ifc_tag", v), sx("ifc_pay", v)
-		return and(sx(">=", tg, "0"), implies(eq(tg, "0"), eq(p, "0")))
+		f := and(sx(">=", tg, "0"), implies(eq(tg, "0"), eq(p, "0")))
+		if alloc != "" {
+			f = and(f, implies(sx("isPtrTag", tg), and(sx(">=", p, "0"), sx("<=", p, alloc))))
+		}
+		return f
 	case *types.Struct:
 		if ty.isOpaqueStruct(t) {
 			return "true"
@@ -266,6 +333,11 @@ func (ty *Types) tagOf(t types.Type) int64 {
 	id := int64(len(ty.tags) + 1)
 	ty.tags[k] = id
 	ty.tagTypes[id] = t
+	if isPointerLike(t) {
+		ty.s.assumeGlobal(sx("isPtrTag", intLit(id)))
+	} else {
+		ty.s.assumeGlobal(not(sx("isPtrTag", intLit(id))))
+	}
 	return id
 }
 
@@ -278,9 +350,9 @@ func (ty *Types) strConst(v string) Term {
 	}
 	name := fmt.Sprintf("str$%d$%s", len(ty.strs), mangle(trunc(v, 24)))
 	ty.s.declConst(name, SStr)
-	ty.s.assume(eq(sx("slen", name), intLit(int64(len(v)))))
+	ty.s.assumeGlobal(eq(sx("slen", name), intLit(int64(len(v)))))
 	for _, other := range ty.strs {
-		ty.s.assume(sx("distinct", name, other))
+		ty.s.assumeGlobal(sx("distinct", name, other))
 	}
 	ty.strs[v] = name
 	return name
@@ -302,8 +374,8 @@ func (ty *Types) box(t types.Type, v Term) Term {
 		ty.boxes[k] = true
 		ty.s.declFun(bn, []Sort{srt}, SInt)
 		ty.s.declFun(un, []Sort{SInt}, srt)
-		ty.s.assume(fmt.Sprintf("(forall ((x %s)) (! (= (%s (%s x)) x) :pattern ((%s x))))", srt, un, bn, bn))
-		ty.s.assume(fmt.Sprintf("(forall ((x %s)) (! (> (%s x) 0) :pattern ((%s x))))", srt, bn, bn))
+		ty.s.assumeGlobal(fmt.Sprintf("(forall ((x %s)) (! (= (%s (%s x)) x) :pattern ((%s x))))", srt, un, bn, bn))
+		ty.s.assumeGlobal(fmt.Sprintf("(forall ((x %s)) (! (> (%s x) 0) :pattern ((%s x))))", srt, bn, bn))
 	}
 	return sx(bn, v)
 }
